@@ -109,6 +109,15 @@ const URIS: &[&str] = &[
 pub fn run(cfg: &RunCfg) -> Ctx {
     let mut all = Ctx::new();
     all.merge(par_cases(cfg, "intercept", cfg.n(60_000, 16 * 120_000), || (), |_, rng, ctx, _| case(rng, ctx)));
+    #[cfg(feature = "full")]
+    {
+        all.merge(par_cases(cfg, "e2e", cfg.n(3000, 16 * 20_000), || (), |_, rng, ctx, i| e2e_case(rng, ctx, i)));
+        for c in 0..3 {
+            for s in 0..3 {
+                all.floor(&format!("e2e.client{}.server{}", c, s), 3);
+            }
+        }
+    }
     for m in METHODS {
         all.floor(&format!("method.{}", m), 3);
     }
@@ -442,4 +451,101 @@ fn apply(r: &mut tonic::Request<()>, k: &str, v: &MVal, append: bool) {
             }
         }
     }
+}
+
+// ------------------------------------------------------------------ end to end through generated code
+
+/// Interceptors attached with the generated `with_interceptor` constructors on both sides.
+#[cfg(feature = "full")]
+pub fn e2e_case(rng: &mut Rng, ctx: &mut Ctx, idx: u64) {
+    use crate::pb::verif::{verif_client::VerifClient, verif_server::VerifServer};
+    use crate::pb::Msg;
+    use crate::svc::*;
+    let shape = *rng.pick(&SHAPES);
+    let req_meta = gen_meta(rng, 4, false);
+    // 0 identity, 1 insert, 2 reject
+    let c_act = rng.below(3);
+    let s_act = rng.below(3);
+    let c_status = gen_status(rng);
+    let s_status = gen_status(rng);
+    let c_ins = (gen_key(rng, false), gen_ascii_value(rng, false));
+    let s_ins = (gen_key(rng, true), gen_bin_value(rng));
+    let id = format!("e{}", idx);
+    let case_json = json!({"shape": format!("{:?}", shape), "client_interceptor": c_act, "server_interceptor": s_act, "request_meta": meta_json(&req_meta),
+        "client_insert": [c_ins.0, c_ins.1], "server_insert": [s_ins.0, short(&s_ins.1)], "client_reject": c_status.json(), "server_reject": s_status.json()});
+    ctx.begin(&format!("e2e-c{}-s{}", c_act, s_act), case_json.clone());
+    ctx.count(&format!("e2e.client{}.server{}", c_act, s_act));
+    let handler = Handler::new();
+    let script = Script { msgs: vec![Msg { data: vec![5; 9], seq: 3, tag: "r".into() }], ..Default::default() };
+    handler.set_script(&id, script.clone());
+    let (ss, si) = (s_status.clone(), s_ins.clone());
+    let server = VerifServer::with_interceptor(handler.clone(), move |mut r: tonic::Request<()>| match s_act {
+        1 => {
+            apply(&mut r, &si.0, &MVal::Bin(si.1.clone()), true);
+            Ok(r)
+        }
+        2 => Err(ss.build()),
+        _ => Ok(r),
+    });
+    let lb = Loopback::new(server, rng.u64(), 1 << 20);
+    let tap = lb.tap.clone();
+    let (cs, ci) = (c_status.clone(), c_ins.clone());
+    let mut client = VerifClient::with_interceptor(lb, move |mut r: tonic::Request<()>| match c_act {
+        1 => {
+            apply(&mut r, &ci.0, &MVal::Ascii(ci.1.clone()), true);
+            Ok(r)
+        }
+        2 => Err(cs.build()),
+        _ => Ok(r),
+    });
+    let spec = CallSpec { id: id.clone(), shape, req_msgs: vec![Msg { data: vec![1], seq: 1, tag: String::new() }], req_meta: req_meta.clone(), req_pend: vec![], req_gaps_ms: vec![], timeout: None };
+    let mut ex = Exec::new();
+    let view = match ex.block_on(200_000, do_call(&mut client, &spec, None)) {
+        Out::Done(v) => v,
+        _ => {
+            ctx.violation("hang", "call did not complete".into());
+            return;
+        }
+    };
+    let log = handler.log(&id);
+    let check_status = |ctx: &mut Ctx, want: &StatusSpec, who: &str| {
+        let mut s2 = script.clone();
+        s2.end = Some(want.clone());
+        s2.fail_up_front = true;
+        for (d, what) in judge_call(shape, &s2, &view) {
+            ctx.violation(&format!("{}-reject-{}", who, d), format!("{} interceptor rejected, but: {}", who, what));
+        }
+    };
+    if c_act == 2 {
+        if !tap.lock().unwrap().is_empty() {
+            ctx.violation("client-reject-sent", "the request was sent although the client interceptor rejected it".into());
+        }
+        if log.entered != 0 {
+            ctx.violation("client-reject-reached-handler", "handler ran".into());
+        }
+        check_status(ctx, &c_status, "client");
+    } else if s_act == 2 {
+        if log.entered != 0 {
+            ctx.violation("server-reject-reached-handler", "the handler ran although the server interceptor rejected the call".into());
+        }
+        check_status(ctx, &s_status, "server");
+    } else {
+        for (d, what) in judge_call(shape, &script, &view) {
+            ctx.violation(&format!("accept-{}", d), what);
+        }
+        let mut want = req_meta.clone();
+        if c_act == 1 {
+            want.push((c_ins.0.clone(), MVal::Ascii(c_ins.1.clone())));
+        }
+        if s_act == 1 {
+            want.push((s_ins.0.clone(), MVal::Bin(s_ins.1.clone())));
+        }
+        if log.entered != 1 {
+            ctx.violation("accept-handler-count", format!("handler entered {} times", log.entered));
+        } else if let Err(e) = multimap_includes(&log.req_meta, &spec_multimap(&want)) {
+            ctx.violation("accept-metadata", format!("handler metadata: {}", e));
+        }
+    }
+    ctx.fingerprint(format!("e2e|{:?}|c{}|s{}", shape, c_act, s_act), c_act + s_act > 0);
+    ctx.sample(case_json);
 }
